@@ -108,7 +108,7 @@ def _check_gvap(case):
     Dl = [(t, i) for i, t in enumerate(data_t)]
     if order == "rev":
         Dl = list(reversed(Dl))
-    pt = PT("p", [(t, "l") for t in pts], 0, 3)
+    pt = PT("p", [(t, "l%d" % i) for i, t in enumerate(pts)], 0, 3)  # several points may share a timestamp
     viols = []
     for fuzzy in (False, True):
         st, r, _ = call(pt.getValuesAtPoints, list(Dl), fuzzy)
@@ -327,6 +327,11 @@ def parts(tier):
                         yield (data, "asc", pts)
                         if n > 1:
                             yield (data, "rev", pts)
+                # points that share a timestamp (each of them gets the sample at that time)
+                for pts in [(t, t) for t in TIMES] + [(t, t, u) for t in TIMES[:2] for u in TIMES if u > t] + [(TIMES[0],) * 3]:
+                    yield (data, "asc", pts)
+                    if n > 1:
+                        yield (data, "rev", pts)
 
     def gen_ovl():
         for a, b, c, d in itertools.product(G, repeat=4):
